@@ -418,6 +418,407 @@ func emitClassCases(g *hx.Gen, k int, reps []gx.G, limit int) {
 	}
 }
 
+// ---------------------------------------------------------------- one call at a time (n = 8..14)
+
+// The whole-run co-simulation stops at n = 5/6, but isCanonical and addAugmentations can be
+// co-simulated one call at a time on much larger graphs (hook search.VerifCanonAugs): the model
+// functions is_canonical / add_augs of Search/Model.v get the same graph, with the real canon
+// answers and the real k-subset loop tabulated as for the whole runs.  By degree_tests_spec /
+// is_canonical_cdel (Search/OrderlyCanon.v) the model's verdict is the specified one.
+
+// keyOf: (degree, sum of the neighbours' degrees, sum of their squares) of v.
+func keyOf(g *gx.G, v int) [3]int {
+	k := [3]int{g.Deg(v), 0, 0}
+	for u := 0; u < g.N; u++ {
+		if u != v && g.Edge(u, v) {
+			d := g.Deg(u)
+			k[1] += d
+			k[2] += d * d
+		}
+	}
+	return k
+}
+
+// viableSpec: the other vertices with the key of the last vertex: the ViableBits that the model of
+// isCanonical passes to the labelling when it has to ask (written from degree_tests_spec, not
+// from the code under test).
+func viableSpec(g *gx.G) uint {
+	last := keyOf(g, g.N-1)
+	vb := uint(0)
+	for v := 0; v < g.N-1; v++ {
+		if keyOf(g, v) == last {
+			vb |= 1 << uint(v)
+		}
+	}
+	return vb
+}
+
+func (t *tableBuilder) addUnit(g *gx.G) {
+	k := g.N
+	nb := make([][]int, k)
+	m := 0
+	for v := 0; v < k; v++ {
+		nb[v] = []int{}
+		for u := 0; u < k; u++ {
+			if g.Edge(u, v) {
+				nb[v] = append(nb[v], u)
+			}
+		}
+		m += len(nb[v])
+	}
+	m /= 2
+	t.add(k, m, nb, false, 0)
+	if vb := viableSpec(g); vb != 0 {
+		t.add(k, m, nb, true, vb)
+	}
+}
+
+// lastIs relabels g so that vertex u becomes the last vertex, the others in random order.
+func lastIs(r *hx.Rng, g *gx.G, u int) gx.G {
+	q := r.Perm(g.N)
+	for i, x := range q {
+		if x == u {
+			q[i], q[g.N-1] = q[g.N-1], q[i]
+			break
+		}
+	}
+	return relabel(g, q)
+}
+
+func randomGraph(r *hx.Rng, k int, dens int) gx.G {
+	var g gx.G
+	g.N = k
+	for u := 0; u < k; u++ {
+		for v := u + 1; v < k; v++ {
+			if r.Intn(16) < dens {
+				setEdge(&g, u, v)
+			}
+		}
+	}
+	return g
+}
+
+func minDegVertices(g *gx.G) []int {
+	md := g.N
+	for v := 0; v < g.N; v++ {
+		if g.Deg(v) < md {
+			md = g.Deg(v)
+		}
+	}
+	var out []int
+	for v := 0; v < g.N; v++ {
+		if g.Deg(v) == md {
+			out = append(out, v)
+		}
+	}
+	return out
+}
+
+// circulant on k vertices with a random connection set.
+func circulant(r *hx.Rng, k int) gx.G {
+	var g gx.G
+	g.N = k
+	for d := 1; d <= k/2; d++ {
+		if r.Chance(1, 2) {
+			for i := 0; i < k; i++ {
+				setEdge(&g, i, (i+d)%k)
+			}
+		}
+	}
+	return g
+}
+
+// multipartite: complete multipartite graph with random part sizes.
+func multipartite(r *hx.Rng, k int) gx.G {
+	var g gx.G
+	g.N = k
+	part := make([]int, k)
+	p, at := 0, 0
+	for at < k {
+		sz := r.Range(1, 4)
+		for i := 0; i < sz && at < k; i++ {
+			part[at] = p
+			at++
+		}
+		p++
+	}
+	for u := 0; u < k; u++ {
+		for v := u + 1; v < k; v++ {
+			if part[u] != part[v] {
+				setEdge(&g, u, v)
+			}
+		}
+	}
+	return g
+}
+
+func complement(g *gx.G) gx.G {
+	var h gx.G
+	h.N = g.N
+	for u := 0; u < g.N; u++ {
+		for v := u + 1; v < g.N; v++ {
+			if !g.Edge(u, v) {
+				setEdge(&h, u, v)
+			}
+		}
+	}
+	return h
+}
+
+type unit struct {
+	g    gx.G
+	mode byte // 'c': isCanonical, then addAugmentations if accepted; 'a': addAugmentations alone
+}
+
+// unitCase = `unit <n> <count>;<table>;U<i>=<edges>|<mode>;...`
+func unitCase(k int, us []unit) string {
+	t := newTableBuilder()
+	var sb strings.Builder
+	for i := range us {
+		t.addUnit(&us[i].g)
+		fmt.Fprintf(&sb, ";U%d=%s|%c", i, edgeString(&us[i].g), us[i].mode)
+	}
+	return fmt.Sprintf("unit %d %d%s%s", k, len(us), t.String(), sb.String())
+}
+
+// tieUnits: graphs on k vertices in which two minimum-degree vertices agree in degree and in the
+// sum of their neighbours' degrees but differ in the sum of squares (the last tie-break of
+// isCanonical), each of the two as the new vertex, under random labellings of the rest.
+func tieUnits(r *hx.Rng, k, want int) []unit {
+	var out []unit
+	for tries := 0; len(out) < want && tries < 4000; tries++ {
+		g := randomGraph(r, k, r.Range(3, 13))
+		md := minDegVertices(&g)
+		found := false
+		for i := 0; i < len(md) && !found; i++ {
+			for j := i + 1; j < len(md) && !found; j++ {
+				a, b := keyOf(&g, md[i]), keyOf(&g, md[j])
+				if a[1] == b[1] && a[2] != b[2] {
+					out = append(out, unit{lastIs(r, &g, md[i]), 'c'}, unit{lastIs(r, &g, md[j]), 'c'})
+					found = true
+				}
+			}
+		}
+	}
+	return out
+}
+
+// minLastUnits: random graphs of every density with a minimum-degree vertex last (otherwise the
+// degree test answers at once), and full ties (several vertices with the key of the last one, so
+// that the labelling is asked): regular and nearly regular graphs.
+func minLastUnits(r *hx.Rng, k, want int) []unit {
+	var out []unit
+	for len(out) < want {
+		var g gx.G
+		switch r.Intn(4) {
+		case 0:
+			g = circulant(r, k)
+			if r.Chance(1, 2) { // break the symmetry a little
+				u, v := r.Intn(k), r.Intn(k)
+				if u != v {
+					g.Adj[u] ^= 1 << uint(v)
+					g.Adj[v] ^= 1 << uint(u)
+				}
+			}
+		case 1:
+			g = structured(r, k)
+		default:
+			g = randomGraph(r, k, r.Range(1, 15))
+		}
+		md := minDegVertices(&g)
+		out = append(out, unit{lastIs(r, &g, md[r.Intn(len(md))]), 'c'})
+		if r.Chance(1, 4) {
+			out = append(out, unit{relabel(&g, r.Perm(k)), 'c'})
+		}
+	}
+	return out
+}
+
+// parentUnits: parents for addAugmentations with many k-subsets to sort into orbits (minimum
+// degree d, so sets of up to d+1 vertices; C(k, d+1) runs across 128, 256, 512, 1024, ..) and a
+// non-trivial group: circulants, complete multipartite graphs, complements of unions of small
+// pieces, and the same with one edge toggled; a few random ones (trivial group).
+func parentUnits(r *hx.Rng, k, want int) []unit {
+	var out []unit
+	for tries := 0; len(out) < want && tries < 200*want; tries++ {
+		var g gx.G
+		switch r.Intn(5) {
+		case 0:
+			g = circulant(r, k)
+		case 1:
+			g = multipartite(r, k)
+		case 2:
+			s := structured(r, k)
+			g = complement(&s)
+		case 3:
+			g = circulant(r, k)
+			u, v := r.Intn(k), r.Intn(k)
+			if u != v {
+				g.Adj[u] ^= 1 << uint(v)
+				g.Adj[v] ^= 1 << uint(u)
+			}
+		default:
+			g = randomGraph(r, k, r.Range(6, 12))
+		}
+		md := g.Deg(minDegVertices(&g)[0])
+		if md < 2 || md > 6 {
+			continue // sets of size 3..7: C(k, md+1) from about 100 up to a few thousand
+		}
+		g = relabel(&g, r.Perm(k))
+		mode := byte('a')
+		if r.Chance(1, 2) {
+			mode = 'c'
+			g = lastIs(r, &g, minDegVertices(&g)[0])
+		}
+		out = append(out, unit{g, mode})
+	}
+	return out
+}
+
+// execUnit: the implementation side of a unit case.  Projected: per unit the verdict of isCanonical
+// and the number of augmentation masks of every size (= the number of orbits of Aut(g) on the
+// subsets of that size, which the specification fixes); strict: the masks in push order (which
+// representative of an orbit is pushed is the implementation's choice).
+func execUnit(line string, k, count int) hx.Result {
+	ent := map[string]string{}
+	for _, e := range strings.Split(line, ";") {
+		if len(e) > 0 && e[0] == 'U' {
+			if i := strings.IndexByte(e, '='); i > 0 {
+				ent[e[:i]] = e[i+1:]
+			}
+		}
+	}
+	var pj, st strings.Builder
+	fmt.Fprintf(&pj, "unit n=%d", k)
+	accepted := 0
+	for i := 0; i < count; i++ {
+		f := strings.Split(ent[fmt.Sprintf("U%d", i)], "|")
+		var g gx.G
+		g.N = k
+		for v := 1; v < k; v++ {
+			for u := 0; u < v; u++ {
+				if f[0][v*(v-1)/2+u] == '1' {
+					setEdge(&g, u, v)
+				}
+			}
+		}
+		verdict, masks := search.VerifCanonAugs(g.Dense(), f[1] == "c")
+		sizes := make([]int, k+1)
+		for _, x := range masks {
+			c := 0
+			for y := x; y != 0; y &= y - 1 {
+				c++
+			}
+			if c <= k {
+				sizes[c]++
+			}
+		}
+		for len(sizes) > 0 && sizes[len(sizes)-1] == 0 {
+			sizes = sizes[:len(sizes)-1]
+		}
+		v := 0
+		if verdict {
+			v = 1
+			accepted++
+		}
+		fmt.Fprintf(&pj, " | %d:%s%d:%s", i, f[1], v, joinInts(sizes))
+		ms := make([]string, len(masks))
+		for j, x := range masks {
+			ms[j] = strconv.FormatUint(uint64(x), 10)
+		}
+		fmt.Fprintf(&st, " | %d:%s", i, strings.Join(ms, ","))
+	}
+	return hx.Result{Obs: pj.String() + " ##" + st.String(), Nontrivial: accepted >= 1,
+		Buckets: []string{fmt.Sprintf("unit n=%d", k)}}
+}
+
+// ---------------------------------------------------------------- live iterators side by side
+
+func noPrune(*graph.DenseGraph) bool { return false }
+
+func drain(it *search.GraphIterator, limit int) []string {
+	var out []string
+	for len(out) < limit && it.Next() {
+		out = append(out, snap(it.Value()))
+	}
+	return out
+}
+
+func sameSeq(a, b []string) bool {
+	if len(a) != len(b) {
+		return false
+	}
+	for i := range a {
+		if a[i] != b[i] {
+			return false
+		}
+	}
+	return true
+}
+
+// execInterleave: two live iterators for the same n must not disturb one another (every iterator
+// yields what C03 says whatever else the program does): B advanced from inside A's prune callback
+// (in the middle of A's Next), or A and B advanced alternately call by call; both compared with
+// twins that run undisturbed.  Nothing to model: the model driver echoes the line.
+func execInterleave(n int, variant string) hx.Result {
+	res := hx.Result{Obs: fmt.Sprintf("interleave n=%d %s | ok", n, variant), Nontrivial: true,
+		Buckets: []string{"interleave " + variant}}
+	const limit = 200000
+	var gotA, gotB, wantA, wantB []string
+	switch variant {
+	case "prune", "preprune":
+		b := search.All(n, 0, 1)
+		bDone := false
+		cb := func(*graph.DenseGraph) bool {
+			if !bDone && len(gotB) < limit {
+				if b.Next() {
+					gotB = append(gotB, snap(b.Value()))
+				} else {
+					bDone = true
+				}
+			}
+			return false
+		}
+		var a *search.GraphIterator
+		if variant == "prune" {
+			a = search.WithPruning(n, 0, 1, noPrune, cb)
+		} else {
+			a = search.WithPruning(n, 0, 1, cb, noPrune)
+		}
+		gotA = drain(a, limit)
+		wantA = drain(search.All(n, 0, 1), limit)
+		wantB = drain(search.All(n, 0, 1), len(gotB))
+	default: // alternate: two shards, one call each in turn
+		a, b := search.All(n, 0, 2), search.All(n, 1, 2)
+		aOn, bOn := true, true
+		for (aOn || bOn) && len(gotA)+len(gotB) < limit {
+			if aOn {
+				if a.Next() {
+					gotA = append(gotA, snap(a.Value()))
+				} else {
+					aOn = false
+				}
+			}
+			if bOn {
+				if b.Next() {
+					gotB = append(gotB, snap(b.Value()))
+				} else {
+					bOn = false
+				}
+			}
+		}
+		wantA = drain(search.All(n, 0, 2), limit)
+		wantB = drain(search.All(n, 1, 2), limit)
+	}
+	if !sameSeq(gotA, wantA) {
+		res.Viol = append(res.Viol, hx.Fail("interleave-A", "n=%d %s: iterator A yields %d values with another live iterator for the same n, %d (or other values) when run alone", n, variant, len(gotA), len(wantA)))
+	}
+	if !sameSeq(gotB, wantB) {
+		res.Viol = append(res.Viol, hx.Fail("interleave-B", "n=%d %s: iterator B yields other values when advanced in the middle of / between calls of another iterator for the same n than when run alone (%d values compared)", n, variant, len(gotB)))
+	}
+	return res
+}
+
 // ---------------------------------------------------------------- the combinations
 
 var moduli = []int{1, 2, 3, 4, 7}
@@ -534,6 +935,15 @@ func exec(line string) hx.Result {
 		head = line[:i]
 	}
 	f := strings.Fields(head)
+	if f[0] == "interleave" {
+		n, _ := strconv.Atoi(f[1])
+		return execInterleave(n, f[2])
+	}
+	if f[0] == "unit" {
+		n, _ := strconv.Atoi(f[1])
+		c, _ := strconv.Atoi(f[2])
+		return execUnit(line, n, c)
+	}
 	if f[0] == "tablepanic" {
 		return hx.Result{Obs: line, Nontrivial: true, Buckets: []string{"outcome:panic"},
 			Viol: []hx.OracleViolation{hx.Fail("tablepanic", "the real code panicked while the table %s was computed (graph.CanonicalIsomorphAllocated, the k-subset orbit loop or search.All on valid inputs)", f[1])}}
@@ -643,6 +1053,35 @@ func gen(g *hx.Gen) {
 			emitClassCases(g, 7, sym, 0) // again, under other labellings
 		})
 		emitSafely(g, "sample-7", func() { g.Emit(specCase(g.Rng, 7, 40, 200)) })
+	}
+	// isCanonical / addAugmentations one call at a time, n = 8..14
+	ks := []int{8, 9, 10, 11, 12, 13, 14}
+	per := g.Pick(8, 24)
+	for _, k := range ks {
+		k := k
+		emitSafely(g, fmt.Sprintf("unit-%d", k), func() {
+			var us []unit
+			if k <= 12 {
+				us = append(us, tieUnits(g.Rng, k, 8*per)...)
+			}
+			us = append(us, minLastUnits(g.Rng, k, 10*per)...)
+			if k >= 9 {
+				us = append(us, parentUnits(g.Rng, k, 8*per)...)
+			}
+			for at := 0; at < len(us); at += 48 {
+				end := at + 48
+				if end > len(us) {
+					end = len(us)
+				}
+				g.Emit(unitCase(k, us[at:end]))
+			}
+		})
+	}
+	// two live iterators for the same n
+	for _, n := range []int{5, 6, 7} {
+		for _, v := range []string{"prune", "preprune", "alternate"} {
+			g.Emit(fmt.Sprintf("interleave %d %s", n, v))
+		}
 	}
 	g.Note("spec checker: canon_spec evaluated by the extracted check_upto on ALL graphs with at most nmax vertices (every ViableBits), and per graph (check_graph, label_pair_check) on relabelled pairs of 7- and 8-vertex graphs")
 }
